@@ -13,11 +13,16 @@
    public product-rule functions are tied to /repo by exact correspondence.
    Hypothesis (classical, not proved here): multiplying 2-jets by the Leibniz rule is the calculus product rule; for the
    bundled one-coordinate families the derivative facts are C14's.
-   PARTIAL: "contraction with the orthonormal cores = sum over index tuples of generator_on_product x core entries" and the
-   dense reduced-matrix identity are decided by correspondence + side check (dense gEDMD); the HOSVD part is C18's. *)
+     - C19_contraction: the tensor-network contraction as coded (_contraction_step_LPsi_u: head step, any number of middle
+       steps, the L-component read off at the end) with ARBITRARY cores U^1..U^p equals
+           sum over all index tuples s of  generator_on_product(s) * (U^1[:, s_1, :] ... U^p[:, s_p, :])[0, r]
+       i.e. Algorithm 3 evaluates the generator image  L Psi(x)^T U  that the explicit sums define, for every number of modes,
+       mode sizes, ranks, state dimension and diffusion shape.
+   PARTIAL: the same statement for the reversible contraction (_contraction_step_dPsi_u) and the dense reduced-matrix
+   identity are decided by correspondence + side check (dense gEDMD); the HOSVD part is C18's. *)
 From Coq Require Import ZArith List Lia Arith.
 Import ListNotations.
-Require Import Ring Sums Matrix Gedmd GedmdProof.
+Require Import Ring Sums Matrix Core Chain Gedmd GedmdProof.
 Open Scope cr_scope.
 
 Theorem C19_frob_sigma (R : cring) (d d2 : nat) (sg : nat -> nat -> R) (gv gj : nat -> R) :
@@ -36,6 +41,18 @@ Theorem C19_reversible (R : cring) (d : nat) (sg : nat -> nat -> R) (js : list (
   gen_on_product_rev d sg js i = GPsum d sg js i.
 Proof. exact (rev_closed d sg js i). Qed.
 Print Assumptions C19_reversible.
+
+Theorem C19_first_step (R : cring) (hlf : R -> R) (d d2 : nat) (b : nat -> R) (sg : nat -> nat -> R) (jets : list (@fjet R)) (u : core R) c r' :
+  rl u = 1%nat -> lstep_first hlf d d2 b sg jets u c r' = lstep_mid hlf d d2 b sg (fun c0 _ => svec tunit c0) jets u c r'.
+Proof. exact (lstep_first_unit hlf d d2 b sg jets u c r'). Qed.
+Print Assumptions C19_first_step.
+
+Theorem C19_contraction (R : cring) (hlf : R -> R) (d d2 : nat) (b : nat -> R) (sg : nat -> nat -> R) (modes : list (@cmode R)) fin r' :
+  linked (ucores modes) fin -> rl_of (ucores modes) fin = 1%nat -> (r' < fin)%nat ->
+  lcontract hlf d d2 b sg vunit modes 1%nat r' =
+  msum (nks modes) (fun ss => gen_on_product hlf d d2 b sg (select modes ss) * chain (ucores modes) ss (zeros (length modes)) 0%nat r').
+Proof. exact (contraction_is_sum hlf d d2 b sg modes fin r'). Qed.
+Print Assumptions C19_contraction.
 
 (* non-vacuity: three modes in dimension 2 with a 2 x 3 diffusion over Z *)
 Definition exj (s : Z) : @fjet Zring := @mkjet Zring (s + 1)%Z (fun x => (Z.of_nat x + s)%Z) (fun x y => (Z.of_nat (x + 2 * y) - s)%Z).
